@@ -175,6 +175,9 @@ func vmSpecial(c *ProgCase, r *CaseRun) (classes []string) {
 }
 
 func checkC03(c *ProgCase) *Outcome {
+	if c.Stats["dynamic-call-of-lazy-value"] > 0 && excludedFamily("lazy-function-value-dynamic-call") {
+		return skip("known:lazy-function-value-dynamic-call")
+	}
 	r := fullRun(c)
 	err, fam := compareBackends(c, r)
 	if err != nil {
@@ -192,7 +195,7 @@ func checkC03(c *ProgCase) *Outcome {
 	return ok(len(classes) > 1, classes...)
 }
 
-var c03opt = gen.ProgOpt{Fuel: 4, Partial: true, Sugar: true, NonFinite: true, Maybe: true, Times: true, Harness: true, Poison: true}
+var c03opt = gen.ProgOpt{Fuel: 4, Partial: true, Sugar: true, NonFinite: true, Maybe: true, Times: true, Harness: true, Poison: true, LazyValues: true}
 
 var c03 = Register(&Prop[ProgCase]{ID: "C03", Name: "differential", Gen: genProgCase(c03opt, run.StdHarness), Check: checkC03})
 
